@@ -897,15 +897,19 @@ class Interp:
                 return K(None)
             if meth == "copy" and not args:
                 return st.alloc("dict", dict(d))
-            if meth == "update" and len(args) == 1 and not kwargs:
-                a0 = args[0]
-                if isinstance(a0, Ref) and a0.kind in ("dict", "defaultdict"):
-                    d.update(st.dict_of(a0))
-                    return K(None)
-                if isinstance(a0, R) and a0.kind == "dict" and "items" in a0.fields:
-                    d.update(dict(a0.fields["items"]))
-                    return K(None)
-                return None
+            if meth == "update" and len(args) <= 1:
+                # d.update(other) / d.update(k=v, ...) / both: the positional mapping first, then the keywords (as CPython does)
+                if args:
+                    a0 = args[0]
+                    if isinstance(a0, Ref) and a0.kind in ("dict", "defaultdict"):
+                        d.update(st.dict_of(a0))
+                    elif isinstance(a0, R) and a0.kind == "dict" and "items" in a0.fields:
+                        d.update(dict(a0.fields["items"]))
+                    else:
+                        return None
+                for k_u, v_u in kwargs.items():
+                    d[K(k_u)] = v_u
+                return K(None)
             if meth == "isdisjoint":
                 return None
             return None
